@@ -61,7 +61,7 @@ func (cachehist) Decode(raw json.RawMessage) (any, error) {
 }
 
 func (cachehist) Rule(prop string) string {
-	return "case = a spokfile of 1-3 tasks (1-4 for C09) mixing literal-file, glob and task dependencies (tasks without file dependencies, tasks sharing a file, a glob covering a literal, hidden files in the tree) + a history of 4-14 operations over {create/edit/revert/delete a dependency file, add/remove a file matching a glob, run any subset of tasks with/without --force/--json/--quiet from the root or a nested directory, make a command exit with status N, remove the cache directory or file}; every invocation is the real CLI in-process under the seeded scheduler with a seeded dag order. Oracle = reference model last[T] (inputs of the last success). distinct_nontrivial = distinct (per-task state class before the run, flags, observed outcome per task) tuples over all run operations, where the state class of a task is (never succeeded | last success on current inputs | last success on other inputs) x (has file deps) x (command set to fail)."
+	return "case = a spokfile of 1-3 tasks (1-4 for C09) mixing literal-file, glob and task dependencies (tasks without file dependencies, tasks sharing a file, a glob covering a literal, hidden files in the tree) + a history of 4-14 operations over {create/edit/revert/delete a dependency file, add/remove a file matching a glob, run any subset of tasks with/without --force/--json/--quiet from the root or a nested directory, make a command exit with status N (by `exit N`, or by `false` under ;-separated statements that rely on errexit), remove the cache directory or file, leave a stray file (copy of the cache, garbage, empty) beside cache.json, re-point a dependency link}; one case in ten has two tasks whose names differ only in capitalisation; every invocation is the real CLI in-process under the seeded scheduler with a seeded dag order. Oracle = reference model last[T] (inputs of the last success). distinct_nontrivial = distinct (per-task state class before the run, flags, observed outcome per task) tuples over all run operations, where the state class of a task is (never succeeded | last success on current inputs | last success on other inputs) x (has file deps) x (command set to fail)."
 }
 
 // ---------------------------------------------------------------- generation
@@ -491,6 +491,9 @@ type projState struct {
 	ctl        map[string]int     // "T_i" -> exit status (0 = ok)
 	last       map[string]*string // T -> canonical inputs of its last success
 	lastFail   map[string]bool    // T -> its most recent execution failed
+	// cacheGone: the cache was removed since T's last success. A skip is still *permitted* when the inputs equal
+	// those of the last success (the property does not say where spok keeps its record), but no longer *required*
+	cacheGone map[string]bool
 	logLen     int
 	inv        int
 	links      map[string]string // dependency files that are symbolic links: path -> target path (project relative)
@@ -521,7 +524,7 @@ func (s *projState) withLinks(disk map[string]string) map[string]string {
 var fixedMtimeNext bool
 
 func newProjState(w *World, p *Program, disk map[string]string) *projState {
-	s := &projState{w: w, prog: p, disk: map[string]string{}, ctl: map[string]int{}, last: map[string]*string{}, lastFail: map[string]bool{}, fixedMtime: fixedMtimeNext}
+	s := &projState{w: w, prog: p, disk: map[string]string{}, ctl: map[string]int{}, last: map[string]*string{}, lastFail: map[string]bool{}, cacheGone: map[string]bool{}, fixedMtime: fixedMtimeNext}
 	fixedMtimeNext = false
 	must(os.MkdirAll(filepath.Join(w.Proj, "src", "sub"), 0o755))
 	writeFile(filepath.Join(w.Proj, "spokfile"), p.Render())
@@ -571,7 +574,9 @@ func (s *projState) rmCache(what string) {
 		os.RemoveAll(filepath.Join(s.w.Proj, ".spok"))
 	}
 	for k := range s.last {
-		s.last[k] = nil
+		if s.last[k] != nil {
+			s.cacheGone[k] = true
+		}
 	}
 }
 
@@ -966,7 +971,7 @@ func (s *projState) judgeRun(res *Result, sched Sched, forceBefore bool, oi stri
 		legal := s.last[n] != nil && *s.last[n] == in && len(missing) == 0
 		skipFlag, isReported := reported[n]
 		outcome = append(outcome, fmt.Sprintf("%v%v", ran, skipFlag))
-		lastDesc := "never succeeded (or cache removed since)"
+		lastDesc := "never succeeded"
 		if s.last[n] != nil {
 			lastDesc = "{" + *s.last[n] + "}"
 		}
@@ -990,6 +995,9 @@ func (s *projState) judgeRun(res *Result, sched Sched, forceBefore bool, oi stri
 		}
 		if isReported && skipFlag && legal {
 			res.count("probe:legal_skip")
+			if s.cacheGone[n] {
+				res.count("accept_either:skip_on_unchanged_inputs_after_cache_removal")
+			}
 		}
 
 		// ---- C14: force runs everything
@@ -1003,7 +1011,7 @@ func (s *projState) judgeRun(res *Result, sched Sched, forceBefore bool, oi stri
 
 		// ---- C02: liveness direction
 		if prop == "C02" {
-			mandatory := legal && !op.Force && nfiles >= 1
+			mandatory := legal && !s.cacheGone[n] && !op.Force && nfiles >= 1
 			if mandatory && ran {
 				res.violate("C02", "unchanged-inputs-implies-skip", sig, "%s: task %s last succeeded on exactly the current inputs {%s}, no --force, cache not removed — yet its commands ran again", oi, n, in)
 			}
@@ -1101,6 +1109,7 @@ func (s *projState) judgeRun(res *Result, sched Sched, forceBefore bool, oi stri
 			cp := in
 			s.last[n] = &cp
 			s.lastFail[n] = false
+			s.cacheGone[n] = false
 		} else {
 			s.lastFail[n] = true
 		}
